@@ -34,6 +34,10 @@ PLAN = {
     "C06": {"rules": ["C06."], "families": ["mixA", "mixAd", "bpReset"], "slices": [], "level": "exploration", "must_hit": ["C06.progress"]},
     "C07": {"rules": ["C07."], "families": WIRE_AB, "slices": [], "level": "exploration", "must_hit": ["C07.resolved"]},
     "C08": {"rules": ["C08."], "families": WIRE_AB, "slices": [], "level": "exploration", "must_hit": []},
+    "C10": {"engine": True, "rules": ["C10."], "level": "model_checking"},
+    "C11": {"engine": True, "rules": ["C11."], "level": "model_checking"},
+    "C12": {"engine": True, "rules": ["C12."], "level": "model_checking"},
+    "C13": {"engine": True, "rules": ["C13."], "level": "model_checking"},
     "C14": {"rules": ["C14.", "C12.out_size"], "families": WIRE_AB, "slices": [], "level": "exploration",
             "must_hit": ["C14.settings_ack", "C14.pong", "C14.all_acked"]},
     "C15": {"rules": ["C15."], "families": WIRE_AB, "slices": [], "level": "exploration", "must_hit": []},
